@@ -162,3 +162,50 @@ def addr_var(w, i, where):
     pol.addr_var = True
     cur, v, g = T.generate(w, t, (), pol, cell_factory=lambda p: TC.leaf_cell(w, 'c:' + p))
     TC.parse_and_compare(w, getattr(M, t).deserialize, cur, v)
+
+
+# ---- the bundled real main-net block ---------------------------------------------------------------------------------------
+
+def _bundled_block_boc():
+    """the base64 BoC of the main-net block in /repo/tests/test_cell.py (read from the source, not imported)"""
+    import ast
+    import os
+    from vf import loader
+    src = open(os.path.join(loader.REPO if os.path.isdir(os.path.join(loader.REPO, 'tests')) else '/repo', 'tests', 'test_cell.py')).read()
+    best = ''
+    for node in ast.walk(ast.parse(src)):
+        if isinstance(node, ast.Constant) and isinstance(node.value, str) and len(node.value) > len(best):
+            best = node.value
+    return best
+
+
+@obligation('C16.realblock', 'C16', kind='bounded', samples=1,
+            fuc=[BL + '.Block.deserialize', BL + '.BlockInfo.deserialize', BL + '.ValueFlow.deserialize', BL + '.BlockExtra.deserialize',
+                 BL + '.McBlockExtra.deserialize', BL + '.ShardDescr.deserialize', TR + '.Transaction.deserialize', TR + '.InMsg.deserialize',
+                 TR + '.OutMsg.deserialize', AC + '.AccountBlock.deserialize'],
+            descr='ONE concrete input (regression, not quantified): the bundled real main-net block (tests/test_cell.py) is decoded by the '
+                  'independent schema decoder (vf/spec/tlbdec.py, block.tlb + supplement) and by Block.deserialize; every field the library '
+                  'returns equals the decoded value (dictionaries entry by entry, all transactions, messages, shard descriptors); pruned '
+                  'parts of the state update are skipped by both')
+def realblock(w):
+    import sys
+    sys.setrecursionlimit(10000)
+    from vf.spec import tlbdec as D
+    from pytoniq_core.boc.cell import Cell
+    M = importlib.import_module(BL)
+    boc = _bundled_block_boc()
+    w.claim('bundled block found in tests/test_cell.py', len(boc) > 1000)
+    root = Cell.one_from_boc(boc)
+    v, r, d = D.decode(root, 'Block')
+    w.claim('the independent decoder consumes the whole root cell', r.done())
+    k, got = call(M.Block.deserialize, root.begin_parse())
+    w.claim(f'Block.deserialize accepts the block ({got if k != "ok" else ""})', k == 'ok')
+    if k != 'ok':
+        return
+    cx = TC.Ctx(w)
+    TC.agree(cx, got, v, 'block')
+    n = len(cx.claims)
+    bad = [name for name, c in cx.claims if not c]
+    w.claim(f'all {n} compared fields agree with the independent decoding (first differences: {bad[:4]})', not bad)
+    w.claim('a non-trivial number of fields was compared', n > 300)
+    w.cover(f'fields compared: {n}; pruned/raw parts skipped: {len(cx.skipped)}')
